@@ -333,7 +333,7 @@ def run(ctx):
     if ctx.shard == 0:
         long_runs(ctx, rng, ds)
     # (a) round trips
-    for _ in range(ctx.budget(24000, 1600000)):
+    for _ in range(ctx.budget(40000, 1600000)):
         if rng.random() < 0.0005:
             switched_on_interlude(ctx)
         d = rng.choice(ds)
